@@ -49,12 +49,18 @@ Proof. exact goaway_frames_never_crash. Qed.
 Theorem C17_unknown_frames_never_crash : forall ft sid, never_crashes (dispatch (RUnknown ft sid)).
 Proof. exact unknown_frames_never_crash. Qed.
 
-(* C17_full_partial: the statement "for every reachable state c and every frame list fs, api_receive fs c is not Crash p"
-   is NOT proved as one theorem: it additionally needs the invariants 16384 <= c_max_out_frame (assertion in
-   _prepare_for_sending), the flow-control window invariants of C03/C04 (assertions in the window code) and the FSM table
-   facts of C06 (events[0] exists).  Those pieces are proved in their own properties; their composition over the
-   receive path is covered by the correspondence run and the byte-level fuzzing of the implementation (see evidence). *)
+(* THE end-to-end statement: after ANY history of calls and received frames (no bound on length), receive_data on ANY list of
+   frames - valid, malformed, refused by the frame buffer, with any HPACK outcome, any header list, any padding - returns events or
+   raises an h2 exception; never IndexError, KeyError, AssertionError, UnicodeDecodeError nor a hyperframe error.  (Proofs/C17Full.v:
+   every partial primitive on the receive path is shown unreachable or translated, under the frame-size invariant of Proofs/MfsInv.v,
+   which holds over every history.  Proving it exposed a genuine defect, repaired in /repo commit 43f9ccd: a PUSH_PROMISE whose parent
+   stream object had been left idle by a failed local call raised IndexError.) *)
+From H2 Require Import Proofs.C17Full.
+Theorem C17_receive_data_only_raises_h2_exceptions :
+  forall cfg os fs, let c := run (conn_new cfg) os in forall p, snd (api_receive fs c) <> Crash p.
+Proof. exact receive_data_only_raises_h2_exceptions. Qed.
 
+Print Assumptions C17_receive_data_only_raises_h2_exceptions.
 Print Assumptions C17_header_pipeline_never_raises_index_error.
 Print Assumptions C17_received_headers_never_crash.
 Print Assumptions C17_empty_header_name_is_protocol_error.
